@@ -22,6 +22,13 @@ Modes
            With "enumerate": [kinds], the history is first run without faults and then once
            per (k, kind) with `kind` injected into the k-th `_render_` call, for ALL k below
            the number of `_render_` calls of the unfaulted run; a probe suffix is appended.
+  session : ONE render data object handed to several iterators one after the other
+           (`_from_render_data_`, keep / give) and to `_animate_`, the owner finalizing in
+           between; per step the outcome, the finalize calls and the flag; the `finalized`
+           flag seen by every `_render_`.
+  iter, fault kinds 7 / 8: the renderable calls `iterator.close()` from inside its k-th
+           `_render_` (7: lets the resulting exception propagate; 8: swallows it); reported:
+           what that nested close() did and `_closed` right after it.
   render / str / draw : one call; per render data object the finalize calls when the call
            returned (or while its exception is still alive) and after the exception is
            dropped + gc.collect().
@@ -44,6 +51,7 @@ import term_image.renderable._renderable as _renderable_mod
 
 FIN = {}  # serial -> calls of _finalize_render_data_
 FIN_FAULTS = set()  # invocation numbers (0-based, per render data object) at which the finalizer raises
+NESTED = []  # per close() made from inside _render_: [what it did, iterator._closed right after]
 UNRAISABLE = []  # finalizer exceptions the interpreter reported as unraisable (raised inside a __del__)
 
 
@@ -63,6 +71,7 @@ def reset(case):
     FIN_FAULTS.clear()
     FIN_FAULTS.update(int(k) for k in case.get("fin_faults", []))
     del UNRAISABLE[:]
+    del NESTED[:]
 
 
 def quiet_finalize(data):
@@ -85,6 +94,40 @@ class VR10(VR):
         self._size_fault = size_fault
         self._data_fault = data_fault
         self.serials = []
+
+    it_ref = None  # the iterator driving this renderable (for the re-entrant close() of kinds 7 / 8)
+
+    def _render_(self, render_data, render_args):
+        """kinds 7 / 8: call `iterator.close()` from inside this render (the generator of the
+        iterator is executing); 7 lets whatever it raises propagate (tagged 7), 8 swallows it
+        and renders normally."""
+        call = self.calls
+        kind = self._faults.get(call)
+        if kind not in (7, 8) or self.it_ref is None:
+            return super()._render_(render_data, render_args)
+        exc = None
+        try:
+            self.it_ref.close()
+        except Exception as e:  # noqa: BLE001
+            exc = e
+        what = 0 if exc is None else (
+            1 if isinstance(exc, ValueError) and "already executing" in str(exc) else 2)
+        NESTED.append([what, int(self.it_ref._closed)])
+        if kind == 8 or exc is None:
+            del self._faults[call]
+            try:
+                return super()._render_(render_data, render_args)
+            finally:
+                self._faults[call] = kind
+        self._faults[call] = 1  # let the base class count and log this invocation
+        try:
+            super()._render_(render_data, render_args)
+        except RuntimeError:
+            pass
+        finally:
+            self._faults[call] = kind
+        exc._verif_kind = 7
+        raise exc
 
     def _get_render_size_(self):
         if self._size_fault:
@@ -171,15 +214,18 @@ def run_iter(case):
         gc.collect()
         res["others"] = [FIN[s] for s in r.serials if s != main] + list(ORPHAN_FIN.values())
         res["log"] = r.log
+        res["nested"] = []
         return res
     data = it._render_data if own_data is None else own_data
     main = data[VR10].serial
+    r.it_ref = it
     for o in case["ops"]:
         out = apply_op(it, o)
         res["ops"].append([out, it.loop, r.tell()])
         res["fin_ops"].append(FIN[main])
         res["fz_ops"].append(int(data.finalized))
         res["closed_ops"].append(int(it._closed))
+    r.it_ref = None
     del it
     gc.collect()
     res["fin"] = FIN[main]
@@ -192,6 +238,7 @@ def run_iter(case):
     gc.collect()
     res["others"] = [FIN[s] for s in r.serials if s != main] + list(ORPHAN_FIN.values())
     res["log"] = r.log
+    res["nested"] = [list(x) for x in NESTED]
     return res
 
 
@@ -300,8 +347,86 @@ def run_oneshot_enumerated(case):
     return out
 
 
+def run_session(case):
+    """One render data object, several iterators one after the other (and _animate_ calls),
+    the owner finalizing in between.  Steps: ["make", cfg] (cfg: kind keep|give, loops, cache,
+    args, pad), ["op", <operation>], ["ownerfin"], ["animate", cfg]."""
+    reset(case)
+    r = make10(case)
+    data = r._get_render_data_(iteration=True)
+    main = data[VR10].serial
+    old_sleep = _renderable_mod.sleep
+    _renderable_mod.sleep = lambda *_: None
+    res = {"steps": [], "fins": [], "fzs": []}
+    it = None
+    try:
+        for st in case["steps"]:
+            what = st[0]
+            if what in ("make", "animate"):
+                it = None  # the previous iterator loses its last reference first
+                gc.collect()
+            if what == "make":
+                cfg = st[1]
+                try:
+                    it = RenderIterator._from_render_data_(
+                        r, data, mk_args(cfg["args"]), mk_padding(cfg["pad"]), cfg["loops"], cfg["cache"],
+                        finalize=(cfg["kind"] == "give"))
+                    out = ["made"]
+                except Exception as e:  # noqa: BLE001
+                    out = ["refused"] + classify(e)[1:]
+            elif what == "op":
+                out = ["noiter"] if it is None else ["out", apply_op(it, st[1])]
+            elif what == "ownerfin":
+                data.finalize()
+                out = ["done"]
+            elif what == "animate":
+                cfg = st[1]
+                from term_image.renderable import RenderArgs
+                try:
+                    r._animate_(data, RenderArgs(VR10, mk_args(cfg["args"])), mk_padding(cfg["pad"]),
+                                cfg["loops"], cfg["cache"], io.StringIO())
+                    out = ["done"]
+                except StopIteration as e:
+                    out = ["out", ["E", "render", 0] if hasattr(e, "_verif_kind") else ["E", "other:StopIteration", 0]]
+                except Exception as e:  # noqa: BLE001
+                    c = classify(e)
+                    out = ["refused"] + c[1:] if c[1] in ("value", "incompat") else ["out", c]
+            else:
+                raise AssertionError(what)
+            res["steps"].append(out)
+            res["fins"].append(FIN[main])
+            res["fzs"].append(int(data.finalized))
+    finally:
+        _renderable_mod.sleep = old_sleep
+    it = None
+    gc.collect()
+    res["fin_end"] = FIN[main]
+    res["fz_end"] = int(data.finalized)
+    quiet_finalize(data)
+    res["fin_owner"] = FIN[main]
+    res["log"] = r.log
+    return res
+
+
+def run_session_enumerated(case):
+    kinds = case["enumerate"]
+    plain = {k: v for k, v in case.items() if k not in ("enumerate", "enumerate_fin")}
+    plain["faults"] = {}
+    first = run_session(plain)
+    out = [[plain, first]]
+    for k in range(len(first.get("log", []))):
+        for kind in kinds:
+            v = copy.deepcopy(plain)
+            v["faults"] = {str(k): kind}
+            out.append([v, run_session(v)])
+    return out
+
+
 def run_case(case):
-    it = case.get("mode", "iter") == "iter"
+    mode = case.get("mode", "iter")
+    if mode == "session":
+        return run_session_enumerated(case) if case.get("enumerate") else [[case, run_session(case)]]
+    it = mode == "iter"
     if case.get("enumerate"):
         return run_iter_enumerated(case) if it else run_oneshot_enumerated(case)
     return [[case, run_iter(case) if it else run_oneshot(case)]]
